@@ -5,8 +5,9 @@
   Layout: (1) classification of program counters, (2) finite cardinality of a predicate on
   fibers (`Card`, via duplicate-free enumerations — fibers are unbounded, `Nat → Pc`),
   (3) the invariant `Mutex.Inv`, (4) one preservation lemma per event constructor,
-  (5) trace-level (history) invariants: hand-off counting, critical-section alternation,
-  refinement of the atomic lock specification.
+  (5) control flow and trace-level (history) invariants: hand-off counting, critical-section
+  alternation, refinement of the atomic lock specification, (6) the data-path invariant
+  `Mutex.DP` (exclusive node ownership ⇒ the fiber a waker wakes is the new owner).
 -/
 import LibfiberVerif.Model.Mutex
 
@@ -467,12 +468,12 @@ theorem Inv.link {s : St} (hi : Inv s) {f m i : Nat} {p : Pc} (hp : p.k = .parke
   · mx_close
   · mx_close
   · mx_close
-  · intros; simp only [k_upd, upd] at *; grind
-  · intros; simp only [k_upd, upd] at *; grind
-  · intros; simp only [k_upd, upd] at *; grind
-  · intros; simp only [k_upd, upd] at *; grind
   · intros; simp only [upd] at *; grind
-  · intros; simp only [k_upd, upd] at *; grind
+  · intros; simp only [upd] at *; grind
+  · intros; simp only [upd] at *; grind
+  · intros; simp only [upd] at *; grind
+  · intros; grind
+  · intros; simp only [upd] at *; grind
   · rw [hann]; exact a13
   · rw [hann]; mx_close
   · rw [hann]; mx_close
@@ -605,7 +606,7 @@ theorem Inv.release {s : St} (hi : Inv s) {f : Nat} {p : Pc} (hpc : (s.pc f).k =
     split at hp
     · have : n = 0 := by omega
       subst this; exact absurd hg (Card.zero_iff.1 hc g)
-    · right; exact ⟨f, by simp [k_upd, hp, K.isWake]⟩
+    · right; exact ⟨f, by simp [hp, K.isWake]⟩
   · mx_close
   · mx_close
   · mx_close
@@ -1450,5 +1451,906 @@ theorem monitor_go_none : ∀ (es : List Ev) (l l' : List Nat),
       cases e <;> simp [csTrack] at h1 <;> try (subst h1; simp only [monitor.go]; exact ih _ _ h)
       · obtain ⟨rfl, rfl⟩ := h1; simp [monitor.go]; exact ih _ _ h
       · obtain ⟨rfl, rfl⟩ := h1; simp [monitor.go]; exact ih _ _ h
+
+/-! ### 6. data path: the fiber a waker wakes is the fiber that was handed the mutex -/
+
+/-- node carried by a locker between reading its `mpsc_fifo_node` and its `xchg(&tail)` -/
+def Pc.preN : Pc → Nat
+  | .waitGotNode n | .waitWroteData n | .waitClearedNode n | .pushCleared n => n
+  | _ => 0
+
+/-- node a popper owns between its `head := next` and handing it to the woken fiber -/
+def Pc.popN : Pc → Nat
+  | .popMoved h _ | .popGotData h _ _ | .popWrote h _ | .wakeGotFiber h _ => h
+  | _ => 0
+
+/-- the fiber a waker is about to wake, once it has read it from the node -/
+def Pc.woken : Pc → Option Nat
+  | .popGotData _ _ g | .popWrote _ g | .wakeGotFiber _ g | .wakeGaveNode _ g
+  | .wakeReadState g _ => some g
+  | _ => none
+
+def Pc.fnSame : Pc → Bool
+  | .waitGotNode _ | .waitWroteData _ => true
+  | _ => false
+def Pc.fnZero : Pc → Bool
+  | .waitClearedNode _ | .pushCleared _ => true
+  | _ => false
+def Pc.dataSet : Pc → Bool
+  | .waitWroteData _ | .waitClearedNode _ | .pushCleared _ => true
+  | _ => false
+def Pc.headRd : Pc → Option Nat
+  | .popGotHead h | .popGotNext h _ => some h
+  | _ => none
+def Pc.nextRd : Pc → Option Nat
+  | .popGotNext _ x => some x
+  | _ => none
+def Pc.movedX : Pc → Option Nat
+  | .popMoved _ x => some x
+  | _ => none
+
+/-- everything the data-path invariant reads of a pc -/
+def Pc.v (p : Pc) : Nat × Nat × Option Nat × Bool × Bool × Bool × Option Nat × Option Nat × Option Nat :=
+  (p.preN, p.popN, p.woken, p.fnSame, p.fnZero, p.dataSet, p.headRd, p.nextRd, p.movedX)
+
+/-- who may currently write a node: a fiber (own `mpsc_fifo_node` or the node it is
+    enqueueing), a queue entry not yet popped, the queue's stub, a popper -/
+inductive Claim
+  | fib (f : Nat) | ent (i : Nat) | stub | pop (w : Nat)
+  deriving DecidableEq
+
+def claimF (s : St) (f : Nat) : Nat := if (s.pc f).preN = 0 then s.fnode f else (s.pc f).preN
+
+def entN (s : St) (i : Nat) : Nat :=
+  if s.hd ≤ i then (match s.order[i]? with | some (n, _) => n | none => 0) else 0
+
+def claim (s : St) : Claim → Nat
+  | .fib f => claimF s f
+  | .ent i => entN s i
+  | .stub => s.headNode
+  | .pop w => (s.pc w).popN
+
+def ClaimInj (s : St) : Prop := ∀ c c', claim s c ≠ 0 → claim s c = claim s c' → c = c'
+
+/-- claims may be dropped or move from one claimant to another -/
+theorem ClaimInj.map {s s' : St} (hinj : ClaimInj s) (σ : Claim → Claim)
+    (hσ : ∀ c c', σ c = σ c' → c = c')
+    (h : ∀ c, claim s' c = 0 ∨ claim s' c = claim s (σ c)) : ClaimInj s' := by
+  intro c c' h1 h2
+  rcases h c with hc | hc
+  · exact absurd hc h1
+  · rcases h c' with hc' | hc'
+    · rw [hc'] at h2; exact absurd h2 h1
+    · apply hσ; apply hinj
+      · rw [← hc]; exact h1
+      · rw [← hc, ← hc']; exact h2
+
+theorem ClaimInj.sub {s s' : St} (hinj : ClaimInj s)
+    (h : ∀ c, claim s' c = 0 ∨ claim s' c = claim s c) : ClaimInj s' :=
+  hinj.map id (fun _ _ h => h) h
+
+def Claim.swap (a b c : Claim) : Claim := if c = a then b else if c = b then a else c
+
+theorem Claim.swap_inj (a b : Claim) : ∀ c c', Claim.swap a b c = Claim.swap a b c' → c = c' := by
+  intro c c' h; unfold Claim.swap at h; grind
+
+structure DP (s : St) : Prop where
+  inj : ClaimInj s
+  stub_nz : s.headNode ≠ 0
+  fn_pre : ∀ f, (s.pc f).fnSame = true → s.fnode f = (s.pc f).preN
+  fn_zero : ∀ f, (s.pc f).fnZero = true → s.fnode f = 0
+  pre_data : ∀ f, (s.pc f).dataSet = true → s.ndata (s.pc f).preN = f
+  ent_data : ∀ (i n f : Nat), s.hd ≤ i → s.order[i]? = some (n, f) → s.ndata n = f
+  got_head : ∀ w h, (s.pc w).headRd = some h → h = s.headNode
+  got_next : ∀ w x, (s.pc w).nextRd = some x → ∃ g, s.order[s.hd]? = some (x, g)
+  moved : ∀ w x, (s.pc w).movedX = some x → x = s.headNode ∧ ∃ g, s.owner = some g ∧ s.ndata x = g
+  woke : ∀ w g, (s.pc w).woken = some g → s.owner = some g
+
+/-- hypotheses on the initial node assignment: every fiber starts with its own node, none is
+    the queue's stub (harness: `F<k>` owns `N<k>`, stub `S`) -/
+structure NodesOk (stub : Nat) (nodeOf : Nat → Nat) : Prop where
+  stub_nz : stub ≠ 0
+  ne_stub : ∀ f, nodeOf f ≠ stub
+  inj : ∀ f g, nodeOf f = nodeOf g → nodeOf f ≠ 0 → f = g
+
+theorem dp_init {stub : Nat} {nodeOf : Nat → Nat} (hn : NodesOk stub nodeOf) :
+    DP (init stub nodeOf) := by
+  obtain ⟨n1, n2, n3⟩ := hn
+  constructor
+  · intro c c' h1 h2
+    cases c <;> cases c' <;> simp [claim, claimF, entN, init, Pc.preN, Pc.popN] at h1 h2 ⊢ <;> grind
+  all_goals simp [init, Pc.woken, Pc.fnSame, Pc.fnZero, Pc.dataSet, Pc.headRd, Pc.nextRd, Pc.movedX]
+  exact n1
+
+/-- steps that leave the view of every pc and the node-related fields alone -/
+theorem DP.frame {s s' : St} (hd : DP s) (hv : ∀ f, (s'.pc f).v = (s.pc f).v)
+    (h1 : s'.fnode = s.fnode) (h2 : s'.ndata = s.ndata) (h3 : s'.order = s.order)
+    (h4 : s'.hd = s.hd) (h5 : s'.headNode = s.headNode) (h6 : s'.owner = s.owner) : DP s' := by
+  have v1 : ∀ f, (s'.pc f).preN = (s.pc f).preN := fun f => congrArg (·.1) (hv f)
+  have v2 : ∀ f, (s'.pc f).popN = (s.pc f).popN := fun f => congrArg (·.2.1) (hv f)
+  have v3 : ∀ f, (s'.pc f).woken = (s.pc f).woken := fun f => congrArg (·.2.2.1) (hv f)
+  have v4 : ∀ f, (s'.pc f).fnSame = (s.pc f).fnSame := fun f => congrArg (·.2.2.2.1) (hv f)
+  have v5 : ∀ f, (s'.pc f).fnZero = (s.pc f).fnZero := fun f => congrArg (·.2.2.2.2.1) (hv f)
+  have v6 : ∀ f, (s'.pc f).dataSet = (s.pc f).dataSet := fun f => congrArg (·.2.2.2.2.2.1) (hv f)
+  have v7 : ∀ f, (s'.pc f).headRd = (s.pc f).headRd := fun f => congrArg (·.2.2.2.2.2.2.1) (hv f)
+  have v8 : ∀ f, (s'.pc f).nextRd = (s.pc f).nextRd := fun f => congrArg (·.2.2.2.2.2.2.2.1) (hv f)
+  have v9 : ∀ f, (s'.pc f).movedX = (s.pc f).movedX := fun f => congrArg (·.2.2.2.2.2.2.2.2) (hv f)
+  have hc : ∀ c, claim s' c = claim s c := by
+    intro c; cases c <;> simp only [claim, claimF, entN, v1, v2, h1, h3, h4, h5]
+  constructor
+  · exact hd.inj.sub (fun c => Or.inr (hc c))
+  · rw [h5]; exact hd.stub_nz
+  · simp only [v1, v4, h1]; exact hd.fn_pre
+  · simp only [v5, h1]; exact hd.fn_zero
+  · simp only [v1, v6, h2]; exact hd.pre_data
+  · simp only [h2, h3, h4]; exact hd.ent_data
+  · simp only [v7, h5]; exact hd.got_head
+  · simp only [v8, h3, h4]; exact hd.got_next
+  · simp only [v9, h2, h5, h6]; exact hd.moved
+  · simp only [v3, h6]; exact hd.woke
+
+theorem v_upd_same {pc : Nat → Pc} {f0 : Nat} {p : Pc} (h : p.v = (pc f0).v) (f : Nat) :
+    (upd pc f0 p f).v = (pc f).v := by
+  simp only [upd]; split
+  · next h' => rw [h', h]
+  · rfl
+
+/-- a step that changes only the pc of `f` (and possibly the owner) -/
+theorem DP.pcStep {s s' : St} (hd : DP s) {f : Nat} {p : Pc} (hpc : s'.pc = upd s.pc f p)
+    (h1 : s'.fnode = s.fnode) (h2 : s'.ndata = s.ndata) (h3 : s'.order = s.order)
+    (h4 : s'.hd = s.hd) (h5 : s'.headNode = s.headNode)
+    (ho : s'.owner = s.owner ∨ ∀ w, (s.pc w).movedX = none ∧ (s.pc w).woken = none)
+    (hcl0 : p.preN = 0 → s.fnode f = claimF s f) (hcl1 : p.preN ≠ 0 → p.preN = claimF s f)
+    (hpop : p.popN = 0 ∨ p.popN = (s.pc f).popN)
+    (pa : p.fnSame = true → s.fnode f = p.preN)
+    (pb : p.fnZero = true → s.fnode f = 0)
+    (pc' : p.dataSet = true → s.ndata p.preN = f)
+    (pd : ∀ h, p.headRd = some h → h = s.headNode)
+    (pe : ∀ x, p.nextRd = some x → ∃ g, s.order[s.hd]? = some (x, g))
+    (pf : ∀ x, p.movedX = some x → x = s.headNode ∧ ∃ g, s'.owner = some g ∧ s.ndata x = g)
+    (pg : ∀ g, p.woken = some g → s'.owner = some g) : DP s' := by
+  obtain ⟨d1, d2, d3, d4, d5, d6, d7, d8, d9, d10⟩ := hd
+  have hc : ∀ c, claim s' c = 0 ∨ claim s' c = claim s c := by
+    intro c
+    cases c with
+    | fib g =>
+      simp only [claim, claimF, hpc, h1, upd]
+      split
+      · next hg =>
+        subst hg; right
+        split
+        · next h0 => exact hcl0 h0
+        · next h0 => exact hcl1 h0
+      · right; rfl
+    | ent i => right; simp only [claim, entN, h3, h4]
+    | stub => right; simp only [claim, h5]
+    | pop w =>
+      simp only [claim, hpc, upd]
+      split
+      · next hg => subst hg; rcases hpop with h | h <;> simp [h]
+      · right; rfl
+  constructor
+  · exact d1.sub hc
+  · rw [h5]; exact d2
+  · intro g; rw [hpc, h1]; simp only [upd]; split
+    · next hg => subst hg; exact pa
+    · exact d3 g
+  · intro g; rw [hpc, h1]; simp only [upd]; split
+    · next hg => subst hg; exact pb
+    · exact d4 g
+  · intro g; rw [hpc, h2]; simp only [upd]; split
+    · next hg => subst hg; exact pc'
+    · exact d5 g
+  · rw [h2, h3, h4]; exact d6
+  · intro g; rw [hpc, h5]; simp only [upd]; split
+    · next hg => subst hg; exact pd
+    · exact d7 g
+  · intro g; rw [hpc, h3, h4]; simp only [upd]; split
+    · next hg => subst hg; exact pe
+    · exact d8 g
+  · intro g; rw [hpc, h2, h5]; simp only [upd]; split
+    · next hg => subst hg; exact pf
+    · intro x hx
+      rcases ho with ho | ho
+      · rw [ho]; exact d9 g x hx
+      · rw [(ho g).1] at hx; cases hx
+  · intro g; rw [hpc]; simp only [upd]; split
+    · next hg => subst hg; exact pg
+    · intro x hx
+      rcases ho with ho | ho
+      · rw [ho]; exact d10 g x hx
+      · rw [(ho g).2] at hx; cases hx
+
+theorem preN_eq_preNode {p : Pc} (h : p.preN ≠ 0) : p.preN = p.preNode := by
+  cases p <;> simp_all [Pc.preN, Pc.preNode]
+
+theorem dataSet_preN {p : Pc} (h : p.dataSet = true) : p.preN = p.preNode := by
+  cases p <;> simp_all [Pc.preN, Pc.preNode, Pc.dataSet]
+
+/-- a pre-xchg locker's node is claimed by nobody else -/
+theorem DP.pre_excl {s : St} (hd : DP s) (hz : NZ s) {f : Nat} (hf : (s.pc f).dataSet = true ∨ (s.pc f).fnSame = true) :
+    (s.pc f).preN ≠ 0 ∧ ∀ c, claim s c = (s.pc f).preN → c = .fib f := by
+  have h0 : (s.pc f).preN ≠ 0 := by
+    have := hz.pcs f
+    rcases hf with hf | hf <;> (cases hp : s.pc f <;> simp_all [Pc.preN, Pc.preNode, Pc.dataSet, Pc.fnSame])
+  refine ⟨h0, fun c hc => ?_⟩
+  have : claim s (.fib f) = (s.pc f).preN := by simp [claim, claimF, h0]
+  exact (hd.inj (.fib f) c (by rw [this]; exact h0) (by rw [this, hc])).symm
+
+/-- `node->data = this_fiber` -/
+theorem DP.wDataPre {s s' : St} (hd : DP s) (hz : NZ s) {f n : Nat}
+    (hf : s.pc f = .waitGotNode n)
+    (hpc : s'.pc = upd s.pc f (.waitWroteData n))
+    (h1 : s'.fnode = s.fnode) (h2 : s'.ndata = upd s.ndata n f) (h3 : s'.order = s.order)
+    (h4 : s'.hd = s.hd) (h5 : s'.headNode = s.headNode) (h6 : s'.owner = s.owner) : DP s' := by
+  obtain ⟨hn0, hex⟩ := hd.pre_excl hz (f := f) (Or.inr (by rw [hf]; rfl))
+  have hpn : (s.pc f).preN = n := by rw [hf]; rfl
+  rw [hpn] at hn0 hex
+  have hdp := hd
+  obtain ⟨d1, d2, d3, d4, d5, d6, d7, d8, d9, d10⟩ := hd
+  have hc : ∀ c, claim s' c = claim s c := by
+    intro c
+    cases c with
+    | fib g =>
+      simp only [claim, claimF, hpc, h1, upd]
+      split
+      · next hg => subst hg; simp [Pc.preN, hf, hn0]
+      · rfl
+    | ent i => simp only [claim, entN, h3, h4]
+    | stub => simp only [claim, h5]
+    | pop w =>
+      simp only [claim, hpc, upd]
+      split
+      · next hg => subst hg; simp [Pc.popN, hf]
+      · rfl
+  constructor
+  · exact d1.sub (fun c => Or.inr (hc c))
+  · rw [h5]; exact d2
+  · intro g; rw [hpc, h1]; simp only [upd]; split
+    · next hg => subst hg; intro _; have := d3 g (by rw [hf]; rfl); rw [hf] at this; exact this
+    · exact d3 g
+  · intro g; rw [hpc, h1]; simp only [upd]; split
+    · simp [Pc.fnZero]
+    · exact d4 g
+  · intro g; rw [hpc, h2]; simp only [upd]; split
+    · next hg => subst hg; intro _; simp [Pc.preN]
+    · next hg =>
+      intro hds
+      have := (hdp.pre_excl hz (f := g) (Or.inl hds))
+      have hne : (s.pc g).preN ≠ n := by
+        intro he
+        have := hex (.fib g) (by simp [claim, claimF, he, hn0])
+        cases this; exact hg rfl
+      simp [hne]; exact d5 g hds
+  · intro i m g hi hg
+    rw [h4] at hi; rw [h3] at hg; rw [h2]
+    have hne : m ≠ n := by
+      intro he
+      have := hex (.ent i) (by simp [claim, entN, hi, hg, he])
+      cases this
+    simp [upd, hne]; exact d6 i m g hi hg
+  · intro g; rw [hpc, h5]; simp only [upd]; split
+    · simp [Pc.headRd]
+    · exact d7 g
+  · intro g; rw [hpc, h3, h4]; simp only [upd]; split
+    · simp [Pc.nextRd]
+    · exact d8 g
+  · intro g; rw [hpc, h2, h5, h6]; simp only [upd]; split
+    · simp [Pc.movedX]
+    · intro x hx
+      obtain ⟨e1, e2⟩ := d9 g x hx
+      have hne : x ≠ n := by
+        intro he
+        have := hex .stub (by simp [claim, ← e1, he])
+        cases this
+      rw [if_neg hne]; exact ⟨e1, e2⟩
+  · intro g; rw [hpc, h6]; simp only [upd]; split
+    · simp [Pc.woken]
+    · exact d10 g
+
+/-- `this_fiber->mpsc_fifo_node = NULL` -/
+theorem DP.wNodePre {s s' : St} (hd : DP s) {f m : Nat}
+    (hf : s.pc f = .waitWroteData m)
+    (hpc : s'.pc = upd s.pc f (.waitClearedNode m))
+    (h1 : s'.fnode = upd s.fnode f 0) (h2 : s'.ndata = s.ndata) (h3 : s'.order = s.order)
+    (h4 : s'.hd = s.hd) (h5 : s'.headNode = s.headNode) (h6 : s'.owner = s.owner) : DP s' := by
+  obtain ⟨d1, d2, d3, d4, d5, d6, d7, d8, d9, d10⟩ := hd
+  have hfm := d3 f (by rw [hf]; rfl)
+  rw [hf] at hfm; simp only [Pc.preN] at hfm
+  have hc : ∀ c, claim s' c = claim s c := by
+    intro c
+    cases c with
+    | fib g =>
+      simp only [claim, claimF, hpc, h1, upd]
+      split
+      · next hg => subst hg; simp only [Pc.preN, hf, hfm]; split <;> simp_all
+      · rfl
+    | ent i => simp only [claim, entN, h3, h4]
+    | stub => simp only [claim, h5]
+    | pop w =>
+      simp only [claim, hpc, upd]
+      split
+      · next hg => subst hg; simp [Pc.popN, hf]
+      · rfl
+  constructor
+  · exact d1.sub (fun c => Or.inr (hc c))
+  · rw [h5]; exact d2
+  · intro g; rw [hpc, h1]; simp only [upd]; split
+    · simp [Pc.fnSame]
+    · exact d3 g
+  · intro g; rw [hpc, h1]; simp only [upd]; split
+    · simp
+    · exact d4 g
+  · intro g; rw [hpc, h2]; simp only [upd]; split
+    · next hg => subst hg; intro _; have := d5 g (by rw [hf]; rfl); rw [hf] at this; exact this
+    · exact d5 g
+  · rw [h2, h3, h4]; exact d6
+  · intro g; rw [hpc, h5]; simp only [upd]; split
+    · simp [Pc.headRd]
+    · exact d7 g
+  · intro g; rw [hpc, h3, h4]; simp only [upd]; split
+    · simp [Pc.nextRd]
+    · exact d8 g
+  · intro g; rw [hpc, h2, h5, h6]; simp only [upd]; split
+    · simp [Pc.movedX]
+    · exact d9 g
+  · intro g; rw [hpc, h6]; simp only [upd]; split
+    · simp [Pc.woken]
+    · exact d10 g
+
+/-- `xchg(&tail, node)`: the locker's node becomes the newest queue entry -/
+theorem DP.xchg {s s' : St} (hd : DP s) (hi : Inv s) {f m q : Nat}
+    (hf : s.pc f = .pushCleared m)
+    (hpc : s'.pc = upd s.pc f (.pushXchgd m q s.order.length))
+    (h1 : s'.fnode = s.fnode) (h2 : s'.ndata = s.ndata) (h3 : s'.order = s.order ++ [(m, f)])
+    (h4 : s'.hd = s.hd) (h5 : s'.headNode = s.headNode) (h6 : s'.owner = s.owner) : DP s' := by
+  obtain ⟨d1, d2, d3, d4, d5, d6, d7, d8, d9, d10⟩ := hd
+  have hf0 := d4 f (by rw [hf]; rfl)
+  have hdat := d5 f (by rw [hf]; rfl)
+  rw [hf] at hdat; simp only [Pc.preN] at hdat
+  have hle := hi.hd_le
+  have hc : ∀ c, claim s' c = 0 ∨
+      claim s' c = claim s (Claim.swap (.fib f) (.ent s.order.length) c) := by
+    intro c
+    cases c with
+    | fib g =>
+      simp only [claim, claimF, hpc, h1, upd]
+      split
+      · next hg => subst hg; left; simp [Pc.preN, hf0]
+      · next hg => right; simp [Claim.swap, hg]
+    | ent i =>
+      by_cases hil : i = s.order.length
+      · subst hil; right
+        simp [claim, entN, h3, h4, hle, Claim.swap, claimF, hf, Pc.preN]
+        intro h0; rw [hf0]; exact h0
+      · right
+        have hsw : Claim.swap (.fib f) (.ent s.order.length) (.ent i) = .ent i := by
+          simp [Claim.swap, hil]
+        rw [hsw]
+        simp only [claim, entN, h3, h4]
+        split
+        · by_cases hlt : i < s.order.length
+          · rw [List.getElem?_append_left hlt]
+          · rw [List.getElem?_eq_none (by simp; omega), List.getElem?_eq_none (by omega)]
+        · rfl
+    | stub => right; simp [claim, h5, Claim.swap]
+    | pop w =>
+      right
+      simp only [claim, hpc, upd, Claim.swap]
+      simp
+      split
+      · next hg => subst hg; simp [Pc.popN, hf]
+      · rfl
+  constructor
+  · exact d1.map _ (Claim.swap_inj _ _) hc
+  · rw [h5]; exact d2
+  · intro g; rw [hpc, h1]; simp only [upd]; split
+    · simp [Pc.fnSame]
+    · exact d3 g
+  · intro g; rw [hpc, h1]; simp only [upd]; split
+    · simp [Pc.fnZero]
+    · exact d4 g
+  · intro g; rw [hpc, h2]; simp only [upd]; split
+    · simp [Pc.dataSet]
+    · exact d5 g
+  · intro i n g hi' hg
+    rw [h4] at hi'; rw [h3] at hg; rw [h2]
+    rcases getElem?_snoc_cases hg with h | ⟨-, h⟩
+    · exact d6 i n g hi' h
+    · cases h; exact hdat
+  · intro g; rw [hpc, h5]; simp only [upd]; split
+    · simp [Pc.headRd]
+    · exact d7 g
+  · intro g; rw [hpc, h3, h4]; simp only [upd]; split
+    · simp [Pc.nextRd]
+    · intro x hx
+      obtain ⟨y, hy⟩ := d8 g x hx
+      exact ⟨y, getElem?_snoc_of_some _ hy⟩
+  · intro g; rw [hpc, h2, h5, h6]; simp only [upd]; split
+    · simp [Pc.movedX]
+    · exact d9 g
+  · intro g; rw [hpc, h6]; simp only [upd]; split
+    · simp [Pc.woken]
+    · exact d10 g
+
+theorem headRd_isPop {p : Pc} {h : Nat} (hp : p.headRd = some h) : p.k.isPop := by
+  cases p <;> simp_all [Pc.headRd, Pc.k, K.isPop]
+theorem nextRd_isPop {p : Pc} {h : Nat} (hp : p.nextRd = some h) : p.k.isPop := by
+  cases p <;> simp_all [Pc.nextRd, Pc.k, K.isPop]
+theorem movedX_isPop {p : Pc} {h : Nat} (hp : p.movedX = some h) : p.k.isPop := by
+  cases p <;> simp_all [Pc.movedX, Pc.k, K.isPop]
+theorem woken_isPop {p : Pc} {h : Nat} (hp : p.woken = some h) : p.k.isPop := by
+  cases p <;> simp_all [Pc.woken, Pc.k, K.isPop]
+theorem popN_isPop {p : Pc} (hp : p.popN ≠ 0) : p.k.isPop := by
+  cases p <;> simp_all [Pc.popN, Pc.k, K.isPop]
+
+/-- the rotation of claims at a pop: entry `hd` ↦ stub ↦ popper -/
+def popMap (w i : Nat) (c : Claim) : Claim :=
+  if c = .stub then .ent i else if c = .pop w then .stub else if c = .ent i then .pop w else c
+
+theorem popMap_inj (w i : Nat) : ∀ c c', popMap w i c = popMap w i c' → c = c' := by
+  intro c c' h; unfold popMap at h; grind
+
+/-- `head := next` -/
+theorem DP.popStep {s s' : St} (hd : DP s) (hi : Inv s) (hz : NZ s) {w h x n g : Nat}
+    (hf : s.pc w = .popGotNext h x) (hq : s.order[s.hd]? = some (n, g))
+    (hpc : s'.pc = upd s.pc w (.popMoved h x))
+    (h1 : s'.fnode = s.fnode) (h2 : s'.ndata = s.ndata) (h3 : s'.order = s.order)
+    (h4 : s'.hd = s.hd + 1) (h5 : s'.headNode = x) (h6 : s'.owner = some g) : DP s' := by
+  obtain ⟨d1, d2, d3, d4, d5, d6, d7, d8, d9, d10⟩ := hd
+  have hh : h = s.headNode := d7 w h (by rw [hf]; rfl)
+  obtain ⟨g', hg'⟩ := d8 w x (by rw [hf]; rfl)
+  rw [hq] at hg'; cases hg'
+  have hx0 : x ≠ 0 := hz.ord _ _ _ hq
+  have hone : ∀ u, (s.pc u).k.isPop → u = w := fun u hu =>
+    hi.pop_one u w hu (by rw [hf]; simp [Pc.k, K.isPop])
+  have hc : ∀ c, claim s' c = 0 ∨ claim s' c = claim s (popMap w s.hd c) := by
+    intro c
+    cases c with
+    | fib u =>
+      right
+      have : popMap w s.hd (.fib u) = .fib u := by simp [popMap]
+      rw [this]
+      simp only [claim, claimF, hpc, h1, upd]
+      split
+      · next hu => subst hu; simp [Pc.preN, hf]
+      · rfl
+    | ent i =>
+      by_cases hil : i = s.hd
+      · left; subst hil; simp only [claim, entN, h4]; rw [if_neg (by omega)]
+      · right
+        have : popMap w s.hd (.ent i) = .ent i := by simp [popMap, hil]
+        rw [this]
+        simp only [claim, entN, h3, h4]
+        by_cases hlt : s.hd + 1 ≤ i
+        · rw [if_pos hlt, if_pos (by omega)]
+        · rw [if_neg hlt, if_neg (by omega)]
+    | stub =>
+      right
+      have : popMap w s.hd .stub = .ent s.hd := by simp [popMap]
+      rw [this]; simp [claim, entN, h5, hq]
+    | pop u =>
+      by_cases huw : u = w
+      · subst huw; right
+        have : popMap u s.hd (.pop u) = .stub := by simp [popMap]
+        rw [this]; simp [claim, hpc, Pc.popN, hh]
+      · right
+        have : popMap w s.hd (.pop u) = .pop u := by simp [popMap, huw]
+        rw [this]; simp [claim, hpc, upd, huw]
+  constructor
+  · exact d1.map _ (popMap_inj _ _) hc
+  · rw [h5]; exact hx0
+  · intro u; rw [hpc, h1]; simp only [upd]; split
+    · simp [Pc.fnSame]
+    · exact d3 u
+  · intro u; rw [hpc, h1]; simp only [upd]; split
+    · simp [Pc.fnZero]
+    · exact d4 u
+  · intro u; rw [hpc, h2]; simp only [upd]; split
+    · simp [Pc.dataSet]
+    · exact d5 u
+  · intro i m u hi' hu
+    rw [h4] at hi'; rw [h3] at hu; rw [h2]
+    exact d6 i m u (by omega) hu
+  · intro u; rw [hpc]; simp only [upd]; split
+    · simp [Pc.headRd]
+    · next hu => intro y hy; exact absurd (hone u (headRd_isPop hy)) hu
+  · intro u; rw [hpc]; simp only [upd]; split
+    · simp [Pc.nextRd]
+    · next hu => intro y hy; exact absurd (hone u (nextRd_isPop hy)) hu
+  · intro u; rw [hpc, h2, h5, h6]; simp only [upd]; split
+    · intro y hy; simp [Pc.movedX] at hy; subst hy
+      exact ⟨rfl, g, rfl, d6 s.hd _ g (Nat.le_refl _) hq⟩
+    · next hu => intro y hy; exact absurd (hone u (movedX_isPop hy)) hu
+  · intro u; rw [hpc]; simp only [upd]; split
+    · simp [Pc.woken]
+    · next hu => intro y hy; exact absurd (hone u (woken_isPop hy)) hu
+
+/-- `prev_head->data = prev_head_next->data` inside `mpsc_fifo_trypop` -/
+theorem DP.wDataPop {s s' : St} (hd : DP s) (hi : Inv s) (hz : NZ s) {w h x g : Nat}
+    (hf : s.pc w = .popGotData h x g)
+    (hpc : s'.pc = upd s.pc w (.popWrote h g))
+    (h1 : s'.fnode = s.fnode) (h2 : s'.ndata = upd s.ndata h g) (h3 : s'.order = s.order)
+    (h4 : s'.hd = s.hd) (h5 : s'.headNode = s.headNode) (h6 : s'.owner = s.owner) : DP s' := by
+  have hdp := hd
+  obtain ⟨d1, d2, d3, d4, d5, d6, d7, d8, d9, d10⟩ := hd
+  have hone : ∀ u, (s.pc u).k.isPop → u = w := fun u hu =>
+    hi.pop_one u w hu (by rw [hf]; simp [Pc.k, K.isPop])
+  have hcw : claim s (.pop w) = h := by simp [claim, hf, Pc.popN]
+  have hex : ∀ c, claim s c ≠ 0 → claim s c = h → c = .pop w := fun c h0 hc =>
+    d1 c (.pop w) h0 (by rw [hcw]; exact hc)
+  have hc : ∀ c, claim s' c = claim s c := by
+    intro c
+    cases c with
+    | fib u =>
+      simp only [claim, claimF, hpc, h1, upd]
+      split
+      · next hu => subst hu; simp [Pc.preN, hf]
+      · rfl
+    | ent i => simp only [claim, entN, h3, h4]
+    | stub => simp only [claim, h5]
+    | pop u =>
+      simp only [claim, hpc, upd]
+      split
+      · next hu => subst hu; simp [Pc.popN, hf]
+      · rfl
+  constructor
+  · exact d1.sub (fun c => Or.inr (hc c))
+  · rw [h5]; exact d2
+  · intro u; rw [hpc, h1]; simp only [upd]; split
+    · simp [Pc.fnSame]
+    · exact d3 u
+  · intro u; rw [hpc, h1]; simp only [upd]; split
+    · simp [Pc.fnZero]
+    · exact d4 u
+  · intro u; rw [hpc, h2]; simp only [upd]; split
+    · simp [Pc.dataSet]
+    · intro hds
+      have hp := hdp.pre_excl hz (f := u) (Or.inl hds)
+      have hne : (s.pc u).preN ≠ h := by
+        intro he
+        have h0 : h ≠ 0 := he ▸ hp.1
+        have := hex (.fib u) (by simp [claim, claimF, hp.1]) (by simp [claim, claimF, he, h0])
+        cases this
+      simp [hne]; exact d5 u hds
+  · intro i m u hi' hu
+    rw [h4] at hi'; rw [h3] at hu; rw [h2]
+    have hm0 : m ≠ 0 := hz.ord _ _ _ hu
+    have hne : m ≠ h := by
+      intro he
+      have := hex (.ent i) (by simp [claim, entN, hi', hu, hm0]) (by simp [claim, entN, hi', hu, he])
+      cases this
+    simp [upd, hne]; exact d6 i m u hi' hu
+  · intro u; rw [hpc, h5]; simp only [upd]; split
+    · simp [Pc.headRd]
+    · exact d7 u
+  · intro u; rw [hpc, h3, h4]; simp only [upd]; split
+    · simp [Pc.nextRd]
+    · exact d8 u
+  · intro u; rw [hpc]; simp only [upd]; split
+    · simp [Pc.movedX]
+    · next hu => intro y hy; exact absurd (hone u (movedX_isPop hy)) hu
+  · intro u; rw [hpc, h6]; simp only [upd]; split
+    · next hu =>
+      subst hu; intro y hy; simp [Pc.woken] at hy; subst hy
+      exact d10 u g (by rw [hf]; rfl)
+    · exact d10 u
+
+/-- `to_schedule->mpsc_fifo_node = out`: the popped node goes to the woken fiber -/
+theorem DP.giveNode {s s' : St} (hd : DP s) (hi : Inv s) {w h g : Nat}
+    (hf : s.pc w = .wakeGotFiber h g)
+    (hpc : s'.pc = upd s.pc w (.wakeGaveNode h g))
+    (h1 : s'.fnode = upd s.fnode g h) (h2 : s'.ndata = s.ndata) (h3 : s'.order = s.order)
+    (h4 : s'.hd = s.hd) (h5 : s'.headNode = s.headNode) (h6 : s'.owner = s.owner) : DP s' := by
+  obtain ⟨d1, d2, d3, d4, d5, d6, d7, d8, d9, d10⟩ := hd
+  have hog : s.owner = some g := d10 w g (by rw [hf]; rfl)
+  obtain ⟨g', e1, e2⟩ := hi.waking_owner (hi.post_waking w (by rw [hf]; rfl))
+  rw [hog] at e1; cases e1
+  have hgp : s.pc g = .parked := (k_parked _).1 e2
+  have hgw : g ≠ w := by intro he; rw [he, hf] at hgp; cases hgp
+  have hc : ∀ c, claim s' c = 0 ∨ claim s' c = claim s (Claim.swap (.fib g) (.pop w) c) := by
+    intro c
+    cases c with
+    | fib u =>
+      by_cases hug : u = g
+      · subst hug; right
+        have : Claim.swap (.fib u) (.pop w) (.fib u) = .pop w := by simp [Claim.swap]
+        rw [this]
+        simp [claim, claimF, hpc, h1, upd, hgw, hgp, Pc.preN, hf, Pc.popN]
+      · right
+        have : Claim.swap (.fib g) (.pop w) (.fib u) = .fib u := by simp [Claim.swap, hug]
+        rw [this]
+        simp only [claim, claimF, hpc, h1, upd, if_neg hug]
+        split
+        · next hu => subst hu; simp [Pc.preN, hf]
+        · rfl
+    | ent i =>
+      right
+      have : Claim.swap (.fib g) (.pop w) (.ent i) = .ent i := by simp [Claim.swap]
+      rw [this]; simp only [claim, entN, h3, h4]
+    | stub =>
+      right
+      have : Claim.swap (.fib g) (.pop w) .stub = .stub := by simp [Claim.swap]
+      rw [this]; simp only [claim, h5]
+    | pop u =>
+      by_cases huw : u = w
+      · subst huw; left; simp [claim, hpc, Pc.popN]
+      · right
+        have : Claim.swap (.fib g) (.pop w) (.pop u) = .pop u := by simp [Claim.swap, huw]
+        rw [this]; simp [claim, hpc, upd, huw]
+  constructor
+  · exact d1.map _ (Claim.swap_inj _ _) hc
+  · rw [h5]; exact d2
+  · intro u; rw [hpc, h1]; simp only [upd]; split
+    · simp [Pc.fnSame]
+    · split
+      · next hu => subst hu; simp [hgp, Pc.fnSame]
+      · exact d3 u
+  · intro u; rw [hpc, h1]; simp only [upd]; split
+    · simp [Pc.fnZero]
+    · split
+      · next hu => subst hu; simp [hgp, Pc.fnZero]
+      · exact d4 u
+  · intro u; rw [hpc, h2]; simp only [upd]; split
+    · simp [Pc.dataSet]
+    · exact d5 u
+  · rw [h2, h3, h4]; exact d6
+  · intro u; rw [hpc, h5]; simp only [upd]; split
+    · simp [Pc.headRd]
+    · exact d7 u
+  · intro u; rw [hpc, h3, h4]; simp only [upd]; split
+    · simp [Pc.nextRd]
+    · exact d8 u
+  · intro u; rw [hpc, h2, h5, h6]; simp only [upd]; split
+    · simp [Pc.movedX]
+    · exact d9 u
+  · intro u; rw [hpc, h6]; simp only [upd]; split
+    · next hu =>
+      subst hu; intro y hy; simp [Pc.woken] at hy; subst hy; exact hog
+    · exact d10 u
+
+theorem headNext_some {s : St} {x : Nat} (h : x = headNext s) (hx : x ≠ 0) :
+    ∃ g, s.order[s.hd]? = some (x, g) := by
+  unfold headNext at h
+  split at h
+  · next n g heq =>
+    split at h
+    · subst h; exact ⟨g, heq⟩
+    · exact absurd h hx
+  · exact absurd h hx
+
+/-- no fiber is past its pop while the mutex is free or its owner is running -/
+theorem Inv.no_post {s : St} (hi : Inv s)
+    (h : s.owner = none ∨ ∃ f, s.owner = some f ∧ (s.pc f).k.isHold) :
+    ∀ w, (s.pc w).movedX = none ∧ (s.pc w).woken = none := by
+  have hnw : s.waking = false := by
+    cases hw : s.waking with
+    | false => rfl
+    | true =>
+      obtain ⟨g, h1, h2⟩ := hi.waking_owner hw
+      rcases h with h | ⟨f, h3, h4⟩
+      · rw [h] at h1; cases h1
+      · rw [h3] at h1; cases h1; rcases h4 with h4 | h4 <;> rw [h2] at h4 <;> cases h4
+  intro w
+  have : (s.pc w).k ≠ .post := fun hp => by
+    have := hi.post_waking w hp; rw [hnw] at this; cases this
+  cases hp : s.pc w <;> simp_all [Pc.movedX, Pc.woken, Pc.k]
+
+local macro "dp_simple" h:term : tactic => `(tactic| (
+  refine DP.pcStep ‹DP _› (f := _) (p := _) rfl rfl rfl rfl rfl rfl (Or.inl rfl) ?_ ?_ ?_ ?_ ?_ ?_ ?_ ?_ ?_ ?_
+  <;> (try simp [claimF, $h:term, Pc.preN, Pc.popN, Pc.fnSame, Pc.fnZero, Pc.dataSet, Pc.headRd,
+        Pc.nextRd, Pc.movedX, Pc.woken])
+  <;> (try first | rfl | assumption | (intros; omega) | (split <;> first | rfl | assumption | omega))))
+
+theorem dp_step_lock {s s' : St} (hi : Inv s) (hd : DP s) :
+    ∀ e, (∃ f, e = Ev.callLock f) ∨ (∃ f o, e = Ev.fsub f o) ∨ (∃ f, e = Ev.retLock f) ∨
+      (∃ f a b, e = Ev.xchgTail f a b) ∨ (∃ f a b, e = Ev.wNext f a b) ∨ (∃ f a b, e = Ev.rNode f a b) →
+    step s e = some s' → DP s' := by
+  intro e he hs
+  rcases he with ⟨f, rfl⟩ | ⟨f, old, rfl⟩ | ⟨f, rfl⟩ | ⟨f, a, b, rfl⟩ | ⟨f, a, b, rfl⟩ | ⟨f, a, b, rfl⟩
+  · simp only [step] at hs
+    split at hs <;> simp at hs
+    next h => subst hs; dp_simple h
+  · simp only [step] at hs
+    split at hs <;> simp at hs
+    next h =>
+    obtain ⟨rfl, hs⟩ := hs
+    split at hs <;> simp at hs <;> subst hs
+    · next h1 =>
+      refine DP.pcStep hd (f := f) (p := .acquired) rfl rfl rfl rfl rfl rfl
+        (Or.inr (hi.no_post (Or.inl (hi.free_of_one h1).1))) ?_ ?_ ?_ ?_ ?_ ?_ ?_ ?_ ?_ ?_
+      <;> simp [claimF, h, Pc.preN, Pc.popN, Pc.fnSame, Pc.fnZero, Pc.dataSet, Pc.headRd,
+        Pc.nextRd, Pc.movedX, Pc.woken]
+    · dp_simple h
+  · simp only [step] at hs
+    split at hs <;> simp at hs
+    · next h => subst hs; dp_simple h
+    · next h => obtain ⟨_, hs⟩ := hs; subst hs; dp_simple h
+  · simp only [step] at hs
+    split at hs <;> simp at hs
+    next m h =>
+    obtain ⟨⟨rfl, rfl⟩, hs⟩ := hs
+    subst hs; exact hd.xchg hi h rfl rfl rfl rfl rfl rfl rfl
+  · simp only [step] at hs
+    split at hs <;> simp at hs
+    · next m h =>
+      obtain ⟨⟨rfl, rfl⟩, hs⟩ := hs; subst hs
+      have e1 := hd.fn_zero f (by rw [h]; rfl)
+      have e2 := hd.pre_data f (by rw [h]; rfl)
+      rw [h] at e2; simp only [Pc.preN] at e2
+      dp_simple h
+    · next m q i h => obtain ⟨_, hs⟩ := hs; subst hs; dp_simple h
+  · simp only [step] at hs
+    split at hs <;> simp at hs
+    next h =>
+    obtain ⟨⟨rfl, rfl, hn⟩, hs⟩ := hs; subst hs
+    dp_simple h
+
+theorem dp_step_try {s s' : St} (hi : Inv s) (hd : DP s) :
+    ∀ e, (∃ f, e = Ev.callTry f) ∨ (∃ f o b, e = Ev.casCounter f o b) ∨ (∃ f r, e = Ev.retTry f r) ∨
+      (∃ f, e = Ev.csEnter f) ∨ (∃ f v, e = Ev.csExit f v) ∨ (∃ f, e = Ev.callUnlock f) →
+    step s e = some s' → DP s' := by
+  intro e he hs
+  rcases he with ⟨f, rfl⟩ | ⟨f, found, ok, rfl⟩ | ⟨f, r, rfl⟩ | ⟨f, rfl⟩ | ⟨f, v, rfl⟩ | ⟨f, rfl⟩
+  · simp only [step] at hs
+    split at hs <;> simp at hs
+    next h => subst hs; dp_simple h
+  · simp only [step] at hs
+    split at hs <;> simp at hs
+    next h =>
+    obtain ⟨⟨rfl, rfl⟩, hs⟩ := hs
+    split at hs <;> simp at hs <;> subst hs
+    · next h1 =>
+      have h1' : s.counter = 1 := by simpa using h1
+      refine DP.pcStep hd (f := f) (p := .tryDone true) rfl rfl rfl rfl rfl rfl
+        (Or.inr (hi.no_post (Or.inl (hi.free_of_one h1').1))) ?_ ?_ ?_ ?_ ?_ ?_ ?_ ?_ ?_ ?_
+      <;> simp [claimF, h, Pc.preN, Pc.popN, Pc.fnSame, Pc.fnZero, Pc.dataSet, Pc.headRd,
+        Pc.nextRd, Pc.movedX, Pc.woken]
+    · dp_simple h
+  · simp only [step] at hs
+    split at hs <;> simp at hs
+    next r' h =>
+    obtain ⟨rfl, hs⟩ := hs
+    subst hs
+    cases r <;> dp_simple h
+  · simp only [step] at hs
+    split at hs <;> simp at hs
+    subst hs
+    exact hd.frame (fun _ => rfl) rfl rfl rfl rfl rfl rfl
+  · simp only [step] at hs
+    split at hs <;> simp at hs
+    subst hs
+    exact hd.frame (fun _ => rfl) rfl rfl rfl rfl rfl rfl
+  · simp only [step] at hs
+    split at hs <;> simp at hs
+    next h => subst hs; dp_simple h.1
+
+theorem dp_step_unlock {s s' : St} (hi : Inv s) (hz : NZ s) (hd : DP s) :
+    ∀ e, (∃ f o, e = Ev.fadd f o) ∨ (∃ f n, e = Ev.rHead f n) ∨ (∃ f n x, e = Ev.rNext f n x) ∨
+      (∃ f n, e = Ev.wHead f n) ∨ (∃ f, e = Ev.retUnlock f) →
+    step s e = some s' → DP s' := by
+  intro e he hs
+  rcases he with ⟨f, old, rfl⟩ | ⟨f, n, rfl⟩ | ⟨f, n, x, rfl⟩ | ⟨f, n, rfl⟩ | ⟨f, rfl⟩
+  · simp only [step] at hs
+    split at hs <;> simp at hs
+    next h =>
+    obtain ⟨rfl, hs⟩ := hs
+    have hk : (s.pc f).k = .hold := by rw [h]; rfl
+    have ho := hi.hold_owner f (Or.inl hk)
+    have hnp := hi.no_post (Or.inr ⟨f, ho, Or.inl hk⟩)
+    split at hs <;> simp at hs <;> subst hs
+    · refine DP.pcStep hd (f := f) (p := .unlockDone) rfl rfl rfl rfl rfl rfl
+        (Or.inr hnp) ?_ ?_ ?_ ?_ ?_ ?_ ?_ ?_ ?_ ?_
+      <;> simp [claimF, h, Pc.preN, Pc.popN, Pc.fnSame, Pc.fnZero, Pc.dataSet, Pc.headRd,
+        Pc.nextRd, Pc.movedX, Pc.woken]
+    · refine DP.pcStep hd (f := f) (p := .wakeLoop) rfl rfl rfl rfl rfl rfl
+        (Or.inr hnp) ?_ ?_ ?_ ?_ ?_ ?_ ?_ ?_ ?_ ?_
+      <;> simp [claimF, h, Pc.preN, Pc.popN, Pc.fnSame, Pc.fnZero, Pc.dataSet, Pc.headRd,
+        Pc.nextRd, Pc.movedX, Pc.woken]
+  · simp only [step] at hs
+    split at hs <;> simp at hs
+    next h => obtain ⟨rfl, hs⟩ := hs; subst hs; dp_simple h
+  · simp only [step] at hs
+    split at hs <;> simp at hs
+    next hh h =>
+    obtain ⟨⟨rfl, hx⟩, hs⟩ := hs
+    have e1 := hd.got_head f n (by rw [h]; rfl)
+    split at hs <;> simp at hs <;> subst hs
+    · dp_simple h
+    · next hx0 =>
+      have e2 := headNext_some hx hx0
+      dp_simple h
+  · simp only [step] at hs
+    split at hs <;> simp at hs
+    next hh x h =>
+    obtain ⟨rfl, hs⟩ := hs
+    split at hs <;> simp at hs
+    next m g heq =>
+    subst hs
+    exact hd.popStep hi hz h heq rfl rfl rfl rfl rfl rfl rfl
+  · simp only [step] at hs
+    split at hs <;> simp at hs
+    next h => subst hs; dp_simple h
+
+theorem dp_step_wake {s s' : St} (hi : Inv s) (hz : NZ s) (hd : DP s) :
+    ∀ e, (∃ f g v, e = Ev.wState f g v) ∨ (∃ f g v, e = Ev.rState f g v) ∨ (∃ f g n, e = Ev.wNode f g n) ∨
+      (∃ f n g, e = Ev.wData f n g) ∨ (∃ f n g, e = Ev.rData f n g) →
+    step s e = some s' → DP s' := by
+  intro e he hs
+  rcases he with ⟨f, g, v, rfl⟩ | ⟨f, g, v, rfl⟩ | ⟨f, g, n, rfl⟩ | ⟨f, n, g, rfl⟩ | ⟨f, n, g, rfl⟩
+  · simp only [step] at hs
+    split at hs <;> simp at hs
+    · next h => obtain ⟨_, hs⟩ := hs; subst hs; dp_simple h
+    · next h => obtain ⟨_, hs⟩ := hs; subst hs; dp_simple h
+  · simp only [step] at hs
+    split at hs <;> simp at hs
+    next hh g' h =>
+    obtain ⟨⟨rfl, _⟩, hs⟩ := hs
+    have e1 := hd.woke f g (by rw [h]; rfl)
+    split at hs <;> simp at hs <;> subst hs
+    · dp_simple h
+    · dp_simple h
+  · simp only [step] at hs
+    split at hs <;> simp at hs
+    · next m h =>
+      obtain ⟨⟨rfl, rfl⟩, hs⟩ := hs; subst hs
+      exact hd.wNodePre h rfl rfl rfl rfl rfl rfl rfl
+    · next hh g' h =>
+      obtain ⟨⟨rfl, rfl⟩, hs⟩ := hs; subst hs
+      exact hd.giveNode hi h rfl rfl rfl rfl rfl rfl rfl
+  · simp only [step] at hs
+    split at hs <;> simp at hs
+    · next m h =>
+      obtain ⟨⟨rfl, rfl⟩, hs⟩ := hs; subst hs
+      exact hd.wDataPre hz h rfl rfl rfl rfl rfl rfl rfl
+    · next hh x g' h =>
+      obtain ⟨⟨rfl, rfl⟩, hs⟩ := hs; subst hs
+      exact hd.wDataPop hi hz h rfl rfl rfl rfl rfl rfl rfl
+  · simp only [step] at hs
+    split at hs <;> simp at hs
+    · next hh x h =>
+      obtain ⟨⟨rfl, rfl, hg0⟩, hs⟩ := hs; subst hs
+      obtain ⟨e1, g', e2, e3⟩ := hd.moved f n (by rw [h]; rfl)
+      subst e3
+      dp_simple h
+    · next hh g' h =>
+      obtain ⟨⟨rfl, rfl⟩, hs⟩ := hs; subst hs
+      have e1 := hd.woke f g (by rw [h]; rfl)
+      dp_simple h
+
+theorem dp_step {s s' : St} {e : Ev} (hi : Inv s) (hz : NZ s) (hd : DP s)
+    (hs : step s e = some s') : DP s' := by
+  cases e with
+  | callLock f => exact dp_step_lock hi hd _ (Or.inl ⟨_, rfl⟩) hs
+  | fsub f o => exact dp_step_lock hi hd _ (Or.inr (Or.inl ⟨_, _, rfl⟩)) hs
+  | retLock f => exact dp_step_lock hi hd _ (Or.inr (Or.inr (Or.inl ⟨_, rfl⟩))) hs
+  | xchgTail f a b => exact dp_step_lock hi hd _ (Or.inr (Or.inr (Or.inr (Or.inl ⟨_, _, _, rfl⟩)))) hs
+  | wNext f a b => exact dp_step_lock hi hd _ (Or.inr (Or.inr (Or.inr (Or.inr (Or.inl ⟨_, _, _, rfl⟩))))) hs
+  | rNode f a b => exact dp_step_lock hi hd _ (Or.inr (Or.inr (Or.inr (Or.inr (Or.inr ⟨_, _, _, rfl⟩))))) hs
+  | callTry f => exact dp_step_try hi hd _ (Or.inl ⟨_, rfl⟩) hs
+  | casCounter f o b => exact dp_step_try hi hd _ (Or.inr (Or.inl ⟨_, _, _, rfl⟩)) hs
+  | retTry f r => exact dp_step_try hi hd _ (Or.inr (Or.inr (Or.inl ⟨_, _, rfl⟩))) hs
+  | csEnter f => exact dp_step_try hi hd _ (Or.inr (Or.inr (Or.inr (Or.inl ⟨_, rfl⟩)))) hs
+  | csExit f v => exact dp_step_try hi hd _ (Or.inr (Or.inr (Or.inr (Or.inr (Or.inl ⟨_, _, rfl⟩))))) hs
+  | callUnlock f => exact dp_step_try hi hd _ (Or.inr (Or.inr (Or.inr (Or.inr (Or.inr ⟨_, rfl⟩))))) hs
+  | fadd f o => exact dp_step_unlock hi hz hd _ (Or.inl ⟨_, _, rfl⟩) hs
+  | rHead f n => exact dp_step_unlock hi hz hd _ (Or.inr (Or.inl ⟨_, _, rfl⟩)) hs
+  | rNext f n x => exact dp_step_unlock hi hz hd _ (Or.inr (Or.inr (Or.inl ⟨_, _, _, rfl⟩))) hs
+  | wHead f n => exact dp_step_unlock hi hz hd _ (Or.inr (Or.inr (Or.inr (Or.inl ⟨_, _, rfl⟩)))) hs
+  | retUnlock f => exact dp_step_unlock hi hz hd _ (Or.inr (Or.inr (Or.inr (Or.inr ⟨_, rfl⟩)))) hs
+  | wState f g v => exact dp_step_wake hi hz hd _ (Or.inl ⟨_, _, _, rfl⟩) hs
+  | rState f g v => exact dp_step_wake hi hz hd _ (Or.inr (Or.inl ⟨_, _, _, rfl⟩)) hs
+  | wNode f g n => exact dp_step_wake hi hz hd _ (Or.inr (Or.inr (Or.inl ⟨_, _, _, rfl⟩))) hs
+  | wData f n g => exact dp_step_wake hi hz hd _ (Or.inr (Or.inr (Or.inr (Or.inl ⟨_, _, _, rfl⟩)))) hs
+  | rData f n g => exact dp_step_wake hi hz hd _ (Or.inr (Or.inr (Or.inr (Or.inr ⟨_, _, _, rfl⟩)))) hs
+
+theorem dp_of_run {stub : Nat} {nodeOf : Nat → Nat} (hn : NodesOk stub nodeOf) {es : List Ev}
+    {s : St} (h : (sys stub nodeOf).run es = some s) : DP s :=
+  hist_run (fun s _ => DP s) (dp_init hn)
+    (fun _ _ _ _ hr hi hd hs => dp_step hi (nz_of_run hr) hd hs) h
+
+/-- the harness's node assignment: fiber `F<k>` starts with node `N<k>` (id `k + 2`), stub `S` (id 1) -/
+theorem nodesOk_harness : NodesOk 1 (· + 2) :=
+  ⟨by decide, fun f => by simp, fun f g h _ => by simpa using h⟩
 
 end LibfiberVerif.Mutex
